@@ -116,7 +116,20 @@ def _build(d, maxdim):
 
 def _build0(d, maxdim):
     h, w = d.int(1, maxdim), d.int(1, maxdim)
-    grid = _grid(d, h, w)
+    if d.chance(1, 40):
+        # rectangles of about 255 / 256 / 257 and more cells
+        h, w = d.choice([(15, 17), (16, 16), (17, 16), (1, 256), (257, 1),
+                         (20, 13), (3, 85), (2, 128)])
+    if h * w > 64:
+        # a large rectangle is tiled from a short drawn pattern (the byte
+        # budget of a case pays for ~80 cells)
+        pat = _grid(d, 1, 7)[0]
+        grid = [[(pat[(r * w + c) % 7] + (r * w + c) if is_number(
+            pat[(r * w + c) % 7]) and not isinstance(
+                pat[(r * w + c) % 7], list) else pat[(r * w + c) % 7])
+            for c in range(w)] for r in range(h)]
+    else:
+        grid = _grid(d, h, w)
     if d.pick(5) == 0:
         # SUMPRODUCT
         n = d.int(2, 3)
